@@ -78,6 +78,47 @@ def w01(z, wt, h):
     return sum(b for a, b, x in zip(z, wt, h) if x != a)
 
 
+# sha256 of the `def` lines of lean/FairModel/Generated/OracleSrc.lean as lifted from the pinned tree
+PINNED_ORACLE_DEFS = "cf5d6d92de08cf1776300e6d36fa6e0a45ae8805a7bafac33362b20f3af4c75d"
+_ORC_STATE = {}
+
+
+def oracle_src_changed():
+    """True when the lifter produced relabel/reweight definitions that differ from the pinned tree's.  The Lean
+    `Oracle.callOracle*` is built FROM those definitions, so a model-vs-oracle disagreement is then a statement
+    about the source, not a bug of this machinery."""
+    if "v" not in _ORC_STATE:
+        import hashlib
+        import os
+        from .. import leanrun
+        path = os.path.join(leanrun.LEAN, "FairModel", "Generated", "OracleSrc.lean")
+        try:
+            with open(path) as f:
+                defs = "\n".join(ln.strip() for ln in f if ln.startswith("def "))
+            _ORC_STATE["v"] = hashlib.sha256(defs.encode()).hexdigest() != PINNED_ORACLE_DEFS
+        except OSError:
+            _ORC_STATE["v"] = False
+    return _ORC_STATE["v"]
+
+
+def orc_model_problem(msg):
+    if oracle_src_changed():
+        return Problem("correspondence", "the model built from the lifted _call_oracle / GridSearch.fit expressions departs "
+                       "from the first-principles relabel 1[w>0] / reweight |w| (source expressions changed): " + msg,
+                       "C07.generated-oracle-vs-spec")
+    return Problem("harness", msg)
+
+
+def parse_call(tok):
+    """driver output of the `orc.*` ops -> (kind, constant, labels, weights)"""
+    parts = tok.split(" ")
+    if parts[0] == "fit" and len(parts) == 3:
+        return ("fit", None, proto.p_list(parts[1]), proto.p_list(parts[2]))
+    if parts[0] == "dummy" and len(parts) == 4:
+        return ("dummy", proto.p_rat(parts[1]), proto.p_list(parts[2]), proto.p_list(parts[3]))
+    return (parts[0], None, None, None)
+
+
 def lam_from_pool(pool, m, kind, pos):
     if kind == "unit":
         return [F(1) if i == pos % max(m, 1) else F(0) for i in range(m)]
@@ -403,6 +444,8 @@ class CHECK(Check):
             if kind == "bgl":
                 plan.append(("gamma", f"mom.bgl.gamma {case['loss']} {case['lo']} {case['hi']} {ys} {gs} "
                                       f"{proto.lst([F(v) for v in case['h']])}"))
+            elif "skipped" not in o:
+                plan.append(("orc0", f"orc.{'eg' if kind == 'bgl-eg' else 'grid'}.loss {ys} {gs} {proto.lst(lam)}"))
             return plan
         mode = self._mode(case, o)
         if mode is None:
@@ -412,7 +455,13 @@ class CHECK(Check):
         data = f"{proto.lst(case['y'])} {proto.strs(case['g'])} {'none' if case.get('c') is None else proto.strs(case['c'])}"
         pre = f"{case['moment']} {mode} {proto.rat(ratio)} {data}"
         if kind == "fit":
-            return [("index", f"mom.index {case['moment']} {mode} {data}")]
+            plan = [("index", f"mom.index {case['moment']} {mode} {data}")]
+            op = "orc.eg.parity" if case["algo"] == "eg" else "orc.grid.parity"
+            for ci, call in enumerate(o.get("calls", [])):
+                if len(call["lam"]) == len(o["index"]) and all(math.isfinite(v) for v in call["lam"]):
+                    # the multipliers the reduction asked weights for, as the exact rationals the floats denote
+                    plan.append((f"call{ci}", f"{op} {pre} {case['fp']} {case['fn']} {proto.lst([F(v) for v in call['lam']])}"))
+            return plan
         plan = [("index", f"mom.index {case['moment']} {mode} {data}"),
                 ("sw", f"mom.sw {pre} {proto.lst(lam)}"),
                 ("ow", f"mom.err.sw {case['fp']} {case['fn']} {proto.lst(case['y'])} none")]
@@ -421,6 +470,12 @@ class CHECK(Check):
             w_ = oracle_signed_weights(case["moment"], ys_, gs_, cs_, dict(zip([tuple(k) for k in o["index"]], lam)), ratio)
             fp_, fn_ = F(case["fp"]), F(case["fn"])
             plan.append(("relabel", "mom.relabel " + proto.lst([-fp_ + (fp_ + fn_) * y + w for y, w in zip(ys_, w_)])))
+        if kind == "eg":
+            plan.append(("orc0", f"orc.eg.parity {pre} {case['fp']} {case['fn']} {proto.lst(lam)}"))
+        if kind == "grid":
+            for j in range(case.get("ncols", 1)):
+                plan.append((f"orc{j}", f"orc.grid.parity {pre} {case['fp']} {case['fn']} "
+                                        f"{proto.lst([(j + 1) * v for v in lam])}"))
         if kind == "parity":
             plan += [("gamma", f"mom.gamma {pre} {proto.lst([F(v) for v in case['h']])}"),
                      ("gamma2", f"mom.gamma {pre} {proto.lst([F(v) for v in case['h2']])}"),
@@ -479,6 +534,21 @@ class CHECK(Check):
                 probs.append(Problem("property", f"fit raised {o['zero_division']} although the weights {wt} are not all zero",
                                      "C07.eg_normalisation_preserves_order"))
             return probs
+        if model is not None and any(t.startswith("call") for t in model) and not o.get("zero_division"):
+            owx = [-fp + (fp + fn) * y for y in ys]
+            basisx = [oracle_signed_weights(case["moment"], ys, gs, cs, {kk: F(1 if kk == k else 0) for kk in keys}, ratio)
+                      for k in keys]
+            for ci, call in enumerate(o["calls"]):
+                if f"call{ci}" not in model:
+                    continue
+                lamx = [F(v) for v in call["lam"]]
+                exact = [owx[i] + sum(l * b[i] for l, b in zip(lamx, basisx)) for i in range(n)]
+                r = call["fit"]
+                ps = self._cmp_call(model[f"call{ci}"], exact, [float(x) for x in exact], n, case["algo"] == "eg",
+                                    r is None, None, r, f"call {ci} of {case['algo']} fit", live_tol=1e-7)
+                if ps:
+                    probs.extend(ps)
+                    break
         for ci, call in enumerate(o["calls"]):
             lamf = call["lam"]
             wt = [ow[i] + sum(l * b[i] for l, b in zip(lamf, basis)) for i in range(n)]
@@ -594,6 +664,102 @@ class CHECK(Check):
             probs.extend(self._judge_record(case, o, w_spec, ow_spec, n, kind, where))
         if model is not None and model:
             probs.extend(self._model_cls(case, o, model, keys, lam, w_spec, ow_spec, bool(probs)))
+            if kind in ("eg", "grid") and "orc0" in model and not any(p.kind == "property" for p in probs):
+                probs.extend(self._orc_cls(case, o, model, w_spec, ow_spec, n, kind, where))
+        return probs
+
+    def _orc_cls(self, case, o, model, w_spec, ow_spec, n, kind, where):
+        probs = []
+        ncols = 1 if kind == "eg" else case.get("ncols", 1)
+        rec = list(o.get("record", []))
+        for j in range(ncols):
+            exact = None if w_spec is None else [a + (j + 1) * b for a, b in zip(ow_spec, w_spec)]
+            wfloat = [a + (j + 1) * b for a, b in zip(o["ow"], o["sw"])]
+            if kind == "eg":
+                if o.get("zero_division"):
+                    if parse_call(model["orc0"])[0] != "nan-weights" and exact is not None and all(x == 0 for x in exact):
+                        probs.append(orc_model_problem(f"all weights are 0 but the model says {model['orc0'][:40]}; {where}"))
+                    return probs
+                dummy, dconst = o["dummy"], o["dummy_constant"]
+            else:
+                dconst = o["dummies"][j] if j < len(o["dummies"]) else None
+                dummy = dconst is not None
+            r = None
+            if not dummy and rec:
+                r = rec.pop(0)
+            probs.extend(self._cmp_call(model[f"orc{j}"], exact, wfloat, n, kind == "eg", dummy, dconst, r,
+                                        f"column {j}; {where}"))
+            if probs:
+                break
+        return probs
+
+    # ------------------------------------------------------------------ Oracle.callOracle* / callGrid* (lifted source)
+    def _cmp_call(self, mtok, exact_w, wfloat, n, norm, impl_dummy, impl_const, rec, where, live_tol=1e-9):
+        """`mtok`: what the Lean `Oracle.call*` (built from the lifted source expressions) says the learner is called
+        with; exact_w: the exact total signed weights from the property's definition (None if unavailable);
+        wfloat: the same in floats (decides which rows carry a weight that is non-zero beyond rounding);
+        norm: weights are n|w|/sum|w| (EG) rather than |w| (grid)."""
+        probs = []
+        kind, c, my, mw = parse_call(mtok)
+        if kind not in ("fit", "dummy", "nan-weights"):
+            return [orc_model_problem(f"Oracle model returned {mtok[:60]!r}; {where}")]
+        # --- model vs first principles (exact) --------------------------------------------------------
+        if exact_w is not None:
+            z, aw = relabel(exact_w)
+            tot = sum(aw)
+            livex = [i for i in range(n) if exact_w[i] != 0]
+            if kind == "nan-weights":
+                if not (norm and tot == 0):
+                    probs.append(orc_model_problem(f"model reports 0/0 weights but sum|w| = {tot}; {where}"))
+            elif norm and tot == 0:
+                probs.append(orc_model_problem(f"model does not report the 0/0 normalisation; {where}"))
+            else:
+                exp_w = [n * x / tot for x in aw] if norm else aw
+                if len(my) != n or any(my[i] != z[i] for i in livex):
+                    probs.append(orc_model_problem(f"model labels {[str(v) for v in my]} vs 1[w>0] = {z} on the rows with w != 0; {where}"))
+                elif mw != exp_w:
+                    probs.append(orc_model_problem(f"model weights {[str(v) for v in mw]} vs {'n|w|/sum|w|' if norm else '|w|'} = "
+                                                   f"{[str(v) for v in exp_w]}; {where}"))
+                elif kind == "dummy" and any(z[i] != c for i in livex):
+                    probs.append(orc_model_problem(f"model uses the constant {c} but 1[w>0] = {z}; {where}"))
+                elif kind == "fit" and len(livex) == n and len(set(z)) == 1:
+                    probs.append(orc_model_problem(f"model fits the learner although 1[w>0] = {z} is constant; {where}"))
+        if probs or kind == "nan-weights":
+            return probs
+        # --- implementation vs model -------------------------------------------------------------------------
+        big = max([abs(x) for x in wfloat] + [1.0])
+        live = [i for i in range(n) if abs(wfloat[i]) > live_tol * big]
+        all_live = len(live) == n
+        rel = "Oracle.callOracle" if norm else "Oracle.callGrid"
+        if kind == "dummy":
+            if impl_dummy is False and all_live:
+                probs.append(Problem("correspondence", f"model (lifted source): constant learner {c}; implementation called "
+                                                       f"the base learner; {where}", rel))
+            elif impl_dummy and impl_const is not None and impl_const != float(c):
+                probs.append(Problem("correspondence", f"model (lifted source): constant {c}; implementation: constant "
+                                                       f"{impl_const}; {where}", rel))
+            return probs
+        if impl_dummy:
+            if all_live:
+                probs.append(Problem("correspondence", f"implementation used a constant learner, the model (lifted source) "
+                                                       f"fits the base learner on labels {[str(v) for v in my]}; {where}", rel))
+            return probs
+        if rec is None:
+            if all_live:
+                probs.append(Problem("correspondence", f"the base learner was not called; model: fit on {[str(v) for v in my]}; {where}", rel))
+            return probs
+        bad_y = [i for i in live if rec["y"][i] != float(my[i])]
+        sc = max([float(x) for x in mw] + [1.0])
+        rw = rec["w"]
+        bad_w = list(range(n)) if rw is None else [i for i in range(n) if abs(rw[i] - float(mw[i])) > 1e-7 * sc]
+        if bad_y:
+            i = bad_y[0]
+            probs.append(Problem("correspondence", f"row {i}: learner received label {rec['y'][i]}, model (lifted source) says "
+                                                   f"{my[i]} (w = {wfloat[i]!r}); {where}", rel))
+        elif bad_w:
+            i = bad_w[0]
+            probs.append(Problem("correspondence", f"row {i}: learner received sample_weight {None if rw is None else rw[i]!r}, model "
+                                                   f"(lifted source) says {mw[i]} = {float(mw[i])!r}; {where}", rel))
         return probs
 
     def _judge_record(self, case, o, w_spec, ow_spec, n, kind, where):
@@ -742,6 +908,25 @@ class CHECK(Check):
             if proto.p_strs(model["index"]) != idx or proto.p_list(model["sw"]) != w_spec or \
                     proto.p_list(model["sw_none"]) != [F(1)] * n:
                 probs.append(Problem("harness", f"bgl: model {model} vs oracle {w_spec}"))
+            if "orc0" in model:
+                ck, _, my, mw = parse_call(model["orc0"])
+                wt = [1 + w for w in w_spec] if kind == "bgl-eg" else list(w_spec)
+                tot = sum(abs(w) for w in wt)
+                if kind == "bgl-eg" and tot == 0:
+                    want = ("nan-weights", None, None)
+                else:
+                    want = ("fit", ys, [n * abs(w) / tot for w in wt] if kind == "bgl-eg" else wt)
+                if (ck, my, mw) != want:
+                    probs.append(orc_model_problem(f"regression reduction: model {model['orc0'][:80]} vs labels unchanged / "
+                                                   f"weights {[str(v) for v in (want[2] or [])][:6]}; {where}"))
+                elif ck == "fit" and o.get("record"):
+                    r = o["record"][0]
+                    sc = max([float(x) for x in mw] + [1.0])
+                    if any(not near(a, b) for a, b in zip(r["y"], my)) or r["w"] is None or \
+                            any(not near(a, b, sc) for a, b in zip(r["w"], mw)):
+                        probs.append(Problem("correspondence", f"regression reduction: learner received {r['y'][:4]} / {r['w']}, "
+                                                               f"model (lifted source) {model['orc0'][:80]}; {where}",
+                                             "Oracle.callOracleLoss" if kind == "bgl-eg" else "Oracle.callGridLoss"))
             if kind == "bgl":
                 mg = proto.p_list(model["gamma"])
                 if any(not near(a, b) for a, b in zip(o["gamma"], mg)):
